@@ -6,21 +6,24 @@ from . import c02
 
 ID = "C03"
 TOPICS = ["Roots", "Eval"]
-LEAN_TARGETS = ["BezierVerif.Props.Roots", "BezierVerif.Props.C02", "BezierVerif.Props.C03"]
+LEAN_TARGETS = ["BezierVerif.Props.Roots", "BezierVerif.Props.C02", "BezierVerif.Props.C03", "BezierVerif.Props.C02E", "BezierVerif.Props.C03M", "BezierVerif.Props.C03N"]
 TV_DEFS = ["quadraticRoots", "cubic_dcoeffs", "quad_findDRoots", "cubic_splitAtTime", "quad_splitAtTime", "line_splitAtTime"]
 RULE = ("segments from the Appendix-B families incl. arches / elevated curves (derivative linear or constant in a coordinate); open and closed "
         "paths of 1..6 mixed segments with pairwise different segments (two value-equal segments share one dict key in splitAtPoints: "
         "re-drawn and counted); reference = exact simple roots of x' and y' and exact de Casteljau pieces in Fractions; inputs with a root "
         "within 1e-7 of 0.01/0.99 or a near-double root are classified 'boundary' and skipped; non-trivial = at least one extreme")
-UNPROVED = ["'changes sign' <-> simple root (stated for the solver as: genuinely quadratic with positive discriminant, or genuinely linear); the sign-change "
-            "formulation and monotonicity between extremes are sampled (exact derivative sign analysis of every resulting piece)",
-            "the 0.06 % back-tracking bound on pieces next to an ignored extreme — sampled",
-            "closedness / node preservation of addExtremes on whole paths — sampled (per-segment chain theorem proved)"]
+UNPROVED = ["'changes sign' is stated as: simple root (genuinely quadratic with positive discriminant, or genuinely linear) — the equivalence with a sign change is used inside sign_const but not stated as a theorem of its own",
+            "the theorems about pieces assume that no cut is skipped by the 1e-8 duplicate test (NoSkip; discharged by noSkip_of_gaps for cuts at least 1e-8 apart) — coincident x- and y-extremes are sampled",
+            "closedness / node preservation of addExtremes on whole paths — sampled (per-segment chain theorem proved)",
+            "float residuals (theorems are over the reals)"]
 ASSUMPTIONS = ["segments of one path are pairwise different as values", "math.sqrt real"]
-LEVEL_TEXT = ("theorems: cubic_extremes_mem_iff (the regenerated solver + the sort/filter glue report exactly the simple roots of x' or y' in [0.01,0.99]; sorted), "
+LEVEL_TEXT = ("theorems: cubic_extremes_mem_iff / quad_findDRoots_mem (the regenerated solver + the sort/filter glue report exactly the simple roots of x' or y' in [0.01,0.99]; sorted), "
               "none for a line; cutSeg_retrace (pieces of the split walk evaluate to the original at lo_j + s(hi_j-lo_j), including the mapx re-mapping), "
-              "cutSeg_chain (for every cut list the pieces are a connected chain from the segment's start to its end, same kind), noSkip_of_gaps. "
-              "partial: monotonicity and the 0.06 % clause are sampled with exact derivative sign analysis")
+              "cutSeg_chain (for every cut list the pieces are a connected chain from the segment's start to its end, same kind), noSkip_of_gaps; "
+              "C03M.addExtremes_monotone (every piece is monotone or antitone in x and in y on [0,1] unless a simple root of that derivative lies in the first/last 1 % strictly inside the piece: "
+              "sign_const by the intermediate value theorem, monotone_between, no_cut_inside); "
+              "C03N.addExtremes_nearly_monotone (the 0.06 % clause, unconditional: in one of the two directions no coordinate of any piece moves back by more than 6/10000 of the ORIGINAL segment's extent — "
+              "explicit antiderivative, exact Taylor expansion at a derivative root, variation next to a root, rise_dominates for hooks at both ends)")
 LEVEL_NOTE = ("trusted: Lean kernel + Mathlib, axioms {propext, Classical.choice, Quot.sound}, translator, hand model Model/Extremes.lean "
               "(correspondence per run: findExtremes, splitAtPoints with exact cuts, addExtremes)")
 TECHNIQUE = "symbolic tracing to Lean; solver case analysis; induction on the cut list with the mapx algebra; exact-rational oracle"
